@@ -1,6 +1,6 @@
 #!/bin/bash
 # run_all.sh [tier] — every registered check on the current tree; prints one line per check.
-tier="${1:-quick}"; cd /verif
+tier="${1:-quick}"; cd "$(dirname "$(readlink -f "$0")")/.."
 for id in C01 C02 C03 C04 C05 C06 C07 C08 C09 C10 C11 C12 C13 C14 C15 C16 C17 C18; do
   s=$(date +%s); out=$(./check $id $tier 2>&1); rc=$?; e=$(( $(date +%s) - s ))
   echo "$id exit=$rc ${e}s $(echo "$out" | grep -E '^property=' | sed 's/property=[A-Z0-9]* tier=[a-z]* //' | tr '\n' ' ' | cut -c1-200)"
